@@ -187,6 +187,9 @@ func runHist(p *Plan, keepLog bool) *RunResult {
 	}
 
 	if os.Getenv("ZSIM_NOFILE") != "" {
+		// the process's time zone is read now: the Go runtime would otherwise read the zone file at the first
+		// local-time computation, after descriptors have been taken away below, and fall back to UTC
+		_, _ = time.Now().Zone()
 		// fault injected into every would-be I/O of the lint phase: no descriptor can be opened
 		var rl syscall.Rlimit
 		if syscall.Getrlimit(syscall.RLIMIT_NOFILE, &rl) == nil {
@@ -488,6 +491,14 @@ func (h *histState) lintCall(i int, p *Parsed, reg lint.Registry, path string, p
 			Detail: fmt.Sprintf("the %s lint call of op %d (path %q) did not return within %v", kindNames[p.Kind], i, path, opHangLimit)})
 		// does the same call return when made alone in a fresh process? then it is what happened before
 		// in this process that keeps it from returning
+		if h.hangDER != nil && workerMode != "noref" && h.hangCfg != "" {
+			// does the object alone, without any configuration, return? then it is the configuration that
+			// keeps some lint from returning - an effect on lints the configuration may name, but must not block
+			if R := ref(p.Kind, h.hangDER, "", nil, ""); !R.Hung && R.CfgErr == "" {
+				h.violate(Violation{Property: "C11", Class: "hang_under_configuration", Op: i, Site: kindNames[p.Kind] + "/" + path,
+					Detail: fmt.Sprintf("the %s lint call of op %d does not return under the configuration its registry holds, while the same object linted without a configuration does", kindNames[p.Kind], i)})
+			}
+		}
 		if h.hangDER != nil && workerMode != "noref" {
 			if R := ref(p.Kind, h.hangDER, h.hangCfg, nil, ""); !R.Hung && R.CfgErr == "" {
 				h.violate(Violation{Property: "C05", Class: "hang_after_history", Op: i, Site: kindNames[p.Kind] + "/" + path,
